@@ -87,3 +87,13 @@ VARIANTS += [
          old="np.clip(np.round((trans_param - d.low) / d.step) * d.step + d.low, d.low, d.high)",
          new="np.clip(np.round(trans_param / d.step) * d.step, d.low, d.high)"),
 ]
+
+VARIANTS += [
+    dict(id="c10-grid-tolerance-relative", prop="C10", file="optuna/distributions.py", expect="R10.10",
+         old="abs(k - round(k)) < 1.0e-8", new="abs(k - round(k)) < 1.0e-8 * max(1.0, abs(k))"),
+    dict(id="c10-neutral-grid-tolerance-named-constant", prop="C10", file="optuna/distributions.py", expect=None,
+         old="            return self.low <= value <= self.high and abs(k - round(k)) < 1.0e-8",
+         new="            tolerance = 1.0e-8\n            return self.low <= value <= self.high and abs(k - round(k)) < tolerance"),
+    dict(id="c10-trial-params-uncopied", prop="C10", file="optuna/trial/_trial.py", expect="R10.9",
+         old="        return copy.deepcopy(self._cached_frozen_trial.params)\n", new="        return self._cached_frozen_trial.params\n"),
+]
